@@ -148,12 +148,32 @@ def run(ctx):
             continue
         ctx.case(key=("render", str(a), str(b)), nontrivial=True); ctx.branch("render_pair")
         ctx.oracle(str(a) < str(b), "C02.render.not_monotone", "numpy datetime64 rendering", "%s !< %s" % (a, b), dict(a=str(a), b=str(b)))
+    # the proved ISO renderer (Ladim.Dates.renderISO, theorem C02.renderISO_strictMono) against numpy's
+    rpend = []
+    if drv.available:
+        LO, HI = -62167219200, 253402300799
+        for c in range(ctx.n(60, 1500)):
+            k = ctx.rng.randrange(6)
+            if k == 0: base = ctx.rng.choice([LO, HI, 0, -1, 951825600, -62135596800, 4107542400, 68169600])
+            elif k == 1: base = ctx.rng.randrange(LO, HI + 1)
+            elif k == 2: base = (ctx.rng.randrange(LO // 86400, HI // 86400)) * 86400 + ctx.rng.choice([0, 86399, 43200])
+            elif k == 3:      # around the end of February / of a year / of a century
+                y = ctx.rng.choice([1600, 1700, 1900, 2000, 2024, 2100, 2400, 1, 9999, 4])
+                base = int(np.datetime64("%04d-%s" % (y, ctx.rng.choice(["02-28T23:59:59", "03-01T00:00:00", "12-31T23:59:59", "01-01T00:00:00"])), "s").astype("int64"))
+            else: base = int(np.datetime64("2015-01-01T00:00:00", "s").astype("int64")) + ctx.rng.randrange(0, 20 * 366 * 86400)
+            ts = [min(HI, max(LO, base + d)) for d in (0, 1, 59, 60, 3600, 86400, -1)]
+            want = [str(np.datetime64(t, "s")) for t in ts]
+            ctx.case(key=("iso", base), nontrivial=True); ctx.branch("iso_render")
+            rpend.append((drv.ask("dates.render", I(len(ts)), " ".join(I(t) for t in ts)), want, dict(times=ts)))
     if drv.available:
         rep = drv.run()
         for j, tick, cs in pend:
             st, t = rep[j]
             model = [None if x == "NaT" else int(x) for x in t[1:]]
             ctx.eq("date_range", tick, model, cs)
+        for j, want, cs in rpend:
+            st, t = rep[j]
+            ctx.eq("iso_render", want, list(t[1:]), cs)
 
 
 def replay(payload):
